@@ -84,12 +84,70 @@ WriteVerdict(t, r) ==
   ELSE [ok |-> TRUE, why |-> "", dev |-> ""]
 
 IsWrite(t) == "parts" \in DOMAIN t
+IsCsv(t)   == "csv" \in DOMAIN t
+IsWSeq(t)  == "wseq" \in DOMAIN t
+IsDet(t)   == "det" \in DOMAIN t
+
+\* CSV stream entry point: rows read = rows written, no exception; the stream fed had the length the specification computes
+CsvVerdict(t) ==
+  LET bytes == WriterBytes(t.e, t.bom, CsvRender(CsvHeaderAB, t.rows, t.fb))
+      want  == [k \in DOMAIN t.rows |-> <<EncodeCps(8, t.rows[k][1]), EncodeCps(8, t.rows[k][2])>>]
+  IN IF Len(bytes) # t.len THEN [ok |-> FALSE, why |-> "harness fed a stream of another length than the specification renders", dev |-> ""]
+     ELSE IF t.exc # "" THEN [ok |-> FALSE, why |-> "CSV stream of " \o ToString(t.len) \o " bytes (chunk " \o ToString(t.C) \o "): exception " \o t.exc, dev |-> ""]
+     ELSE IF Len(t.loaded) # Len(want) THEN [ok |-> FALSE, why |-> "CSV stream of " \o ToString(t.len) \o " bytes (chunk " \o ToString(t.C) \o "): " \o ToString(Len(t.loaded)) \o " rows read, " \o ToString(Len(want)) \o " written", dev |-> ""]
+     ELSE IF \E k \in DOMAIN want : t.loaded[k] # want[k] THEN [ok |-> FALSE, why |-> "CSV stream: a row read differs from the row written", dev |-> ""]
+     ELSE [ok |-> TRUE, why |-> "", dev |-> ""]
+
+\* writer sequence on one object: calls[1] is the state after construction
+RECURSIVE WSeqWalk(_, _)
+WSeqWalk(t, j) ==
+  IF j > Len(t.calls) THEN 0
+  ELSE LET prev == t.calls[j - 1].bytes  cur == t.calls[j].bytes IN
+       IF ~IsPrefix(prev, cur) THEN j
+       ELSE IF ~WriteAccepts(t.e, t.sw, t.frags[j - 1], t.skip, t.calls[j].code, SubSeq(cur, Len(prev) + 1, Len(cur))) THEN j
+       ELSE WSeqWalk(t, j + 1)
+WSeqVerdict(t) ==
+  IF t.calls[1].bytes # (IF t.bom THEN Bom(t.e) ELSE <<>>) THEN [ok |-> FALSE, why |-> "writer construction did not emit exactly the BOM", dev |-> ""]
+  ELSE LET j == WSeqWalk(t, 2) IN
+       IF j = 0 THEN [ok |-> TRUE, why |-> "", dev |-> ""]
+       ELSE [ok |-> FALSE, why |-> "Write call " \o ToString(j - 1) \o " (" \o t.calls[j].code \o "): the bytes added to the stream are not the encoding of an accepted fragment / not empty for a rejected one", dev |-> ""]
+
+\* DetectEncoding(istream&, skip) behind a consumed preamble
+DetVerdict(t, r) ==
+  LET text   == WriterBytes(t.e, t.bom, t.cps)
+      pre    == [k \in 1..t.p |-> IF k = 1 THEN 255 ELSE IF k = 2 THEN 254 ELSE 35]
+      stream == pre \o text
+      firstCp  == IF Len(t.cps) > 0 THEN t.cps[1] ELSE -1
+      firstLen == IF Len(t.cps) > 0 THEN Len(EncBytesCp(t.e, t.cps[1])) ELSE 0
+      head   == SubSeq(text, 1, MinOf(DetectProbe, Len(text)))
+      bomFound == StartsWith(text, Bom(r.utf))
+  IN IF r.before # t.p THEN [ok |-> FALSE, why |-> "harness: preamble not consumed", dev |-> ""]
+     ELSE IF ~DetectPosOK(t.p, r.skip, bomFound, Len(Bom(r.utf)), r.pos)
+     THEN [ok |-> FALSE, why |-> "DetectEncoding(stream) left the stream at " \o ToString(r.pos) \o ", text starts at " \o ToString(t.p), dev |-> ""]
+     ELSE IF ~r.good \/ r.rest # SubSeq(stream, r.pos + 1, Len(stream))
+     THEN [ok |-> FALSE, why |-> "after DetectEncoding(stream) the rest of the stream is not the text that was written", dev |-> ""]
+     ELSE IF DetectionDemanded(text, t.e, t.bom, firstCp, firstLen) /\ r.utf # t.e
+     THEN [ok |-> FALSE, why |-> "encoding detected as " \o r.utf \o ", written as " \o t.e,
+           dev |-> IF HasNul(t) THEN "Dev_DetectEncodingConfusedByNul"
+                   ELSE IF MDetect(head, FALSE).utf = r.utf /\ MDetect(head, TRUE).utf = t.e THEN "Dev_DetectEncodingLastUnitIgnored" ELSE ""]
+     ELSE IF ~\E fd \in BOOLEAN : LET mm == MDetectStream(stream, t.p, r.skip, [tail |-> TRUE, detect |-> fd], TRUE) IN mm.utf = r.utf /\ mm.pos = r.pos
+     THEN [ok |-> FALSE, why |-> "M-state: DetectEncoding(stream) differs from every modelled variant", dev |-> ""]
+     ELSE [ok |-> TRUE, why |-> "", dev |-> ""]
+
+RecVerdict(t, j, info) ==
+  IF IsWrite(t) THEN WriteVerdict(t, t.runs[j])
+  ELSE IF IsDet(t) THEN DetVerdict(t, t.runs[j])
+  ELSE RunVerdict(t, t.runs[j], info)
 
 ASSUME \A i \in 1..Len(Traces) :
-         LET t == Traces[i]  info == IF IsWrite(t) THEN <<>> ELSE RecInfo(t) IN
-         \A j \in 1..Len(t.runs) :
-            LET v == IF IsWrite(t) THEN WriteVerdict(t, t.runs[j]) ELSE RunVerdict(t, t.runs[j], info) IN
-            v.ok \/ PrintT(<<"BAD", ToJson([id |-> t.id, run |-> j, why |-> v.why, dev |-> v.dev])>>)
+         LET t == Traces[i] IN
+         IF IsCsv(t) \/ IsWSeq(t)
+         THEN LET v == IF IsCsv(t) THEN CsvVerdict(t) ELSE WSeqVerdict(t) IN
+              v.ok \/ PrintT(<<"BAD", ToJson([id |-> t.id, run |-> 0, why |-> v.why, dev |-> v.dev])>>)
+         ELSE LET info == IF IsWrite(t) \/ IsDet(t) THEN <<>> ELSE RecInfo(t) IN
+              \A j \in 1..Len(t.runs) :
+                 LET v == RecVerdict(t, j, info) IN
+                 v.ok \/ PrintT(<<"BAD", ToJson([id |-> t.id, run |-> j, why |-> v.why, dev |-> v.dev])>>)
 ASSUME PrintT(<<"CHECKED", ToJson([n |-> Len(Traces)])>>)
 
 VARIABLE dummy
